@@ -511,6 +511,17 @@ class Interp:
                 v = self.ev(f.value, env)
                 if isinstance(v, T):
                     return LinesOf(v)
+            if f.attr == 'join' and len(e.args) == 1 and isinstance(e.args[0], ast.Call) and norm(e.args[0].func) in ('itertools.chain', 'chain') \
+                    and not e.args[0].keywords:
+                # ''.join(chain(xs, ys, ...)): the joined texts one after the other (only the empty separator distributes)
+                sep = self.ev(f.value, env)
+                if not (isinstance(sep, Lit) and sep.v == ''):
+                    raise _nt(e, '(chain joined with a non-empty separator)')
+                pieces = []
+                for a_ in e.args[0].args:
+                    one = ast.copy_location(ast.Call(func=f, args=[a_], keywords=[]), e)
+                    pieces.append(self.as_str(self.call_expr(one, env), e))
+                return cat(*pieces) if pieces else Lit('')
             if f.attr == 'join' and len(e.args) == 1:
                 sep = self.ev(f.value, env)
                 arg = self.ev(e.args[0], env)
@@ -531,6 +542,9 @@ class Interp:
                     return Lit('')
                 if getattr(arg, 'exact_one', False):
                     return self.as_str(self.item_of(arg), e)      # a one-element list: no separator is written
+                if isinstance(sep, Lit) and sep.v == '':
+                    # joined with the empty text: the items one after the other
+                    return Star(self.as_str(self.item_of(arg), e), arg.src, 1 if getattr(arg, 'nonempty', False) else 0)
                 return Join(sep, self.as_str(self.item_of(arg), e), arg.src, 1 if getattr(arg, 'nonempty', False) else 0)
             if f.attr == 'get' and e.args:
                 base = self.resolve(self.ev(f.value, env))
@@ -826,6 +840,22 @@ class Interp:
                 new = [self.as_str(self.ev(x, env), st) for x in lit.elts]
                 env[name] = cat(*(new + [cur])) if where_ == 'front' else cat(*([cur] + new))
                 return None
+        if isinstance(st, ast.Assign) and len(st.targets) == 1 and isinstance(st.targets[0], ast.Name):
+            # `pieces = [a, b]` / `pieces = [] if c else [a, b]`: a local list of text pieces (joined with '' later), kept as the
+            # concatenation of its items
+            def piece_literal(v):
+                if isinstance(v, ast.IfExp) and isinstance(v.body, ast.List) and isinstance(v.orelse, ast.List):
+                    return piece_literal(v.body if self.cond(v.test, env) else v.orelse)
+                if isinstance(v, ast.List) and not any(isinstance(x, ast.Starred) for x in v.elts):
+                    return cat(*[self.as_str(self.ev(x, env), st) for x in v.elts]) if v.elts else Lit('')
+                return None
+            v0 = st.value
+            if (isinstance(v0, ast.List) and len(v0.elts) >= 2) or (isinstance(v0, ast.IfExp) and isinstance(v0.body, ast.List) and isinstance(v0.orelse, ast.List)):
+                pl = piece_literal(v0)
+                if pl is not None:
+                    env[st.targets[0].id] = pl
+                    self.__dict__.setdefault('piece_names', set()).add(st.targets[0].id)
+                    return None
         if isinstance(st, ast.Assign) and len(st.targets) == 1:
             tgt = st.targets[0]
             if isinstance(tgt, ast.Name):
